@@ -8,7 +8,7 @@ from ..apps import WApp
 
 PID = "C19"
 LEVEL = "exploration"
-RULE = ("(a) form: allocate_code(n), n=0..8, against the real server whose `allocated` reply is rewritten "
+RULE = ("(a) form: allocate_code(n), n=0..8, called at once / after the welcome / after 1-25 scheduler steps, against the real server whose `allocated` reply is rewritten "
         "to nameplates of many shapes; (b) entropy, structurally: os.urandom as seen by the word chooser "
         "is scripted so that every byte value is fed at every word position (256 x positions, "
         "exhaustive): each word is a bijection of exactly one fresh 1-byte draw onto the 256 words of "
@@ -29,7 +29,8 @@ def cases(tier, seed, prep=None):
     out = [{"kind": "entropy", "seed": seed}]
     b = seed * 1000003 + 1900000
     for i in range(72 if q else 1800):
-        out.append({"kind": "form", "seed": b + i, "n": i % 9, "np": NAMEPLATES[i % len(NAMEPLATES)]})
+        out.append({"kind": "form", "seed": b + i, "n": i % 9, "np": NAMEPLATES[i % len(NAMEPLATES)],
+                    "when": ["now", "welcome", "steps", "now"][(i // 9) % 4]})
     for i in range(30 if q else 1200):
         out.append({"kind": "reject", "seed": b + 10000 + i})
     for i in range(60 if q else 2000):
@@ -156,8 +157,14 @@ def run_form(spec):
     world = World(spec["seed"])
     world.adversary = RewriteAllocated(spec["np"])
     a = WApp(world, "A")
-    a.call("allocate_code", spec["n"])
     sch = Scheduler(world, None, chunking="whole")
+    when = spec.get("when", "now")
+    if when == "welcome":
+        # the application asks for a code only once the server has said hello (connection already open)
+        sch.run(300, until=lambda: "welcome" in a.kinds())
+    elif when == "steps":
+        sch.run(world.work_rng.randint(1, 25))
+    a.call("allocate_code", spec["n"])
     sch.run(400, until=lambda: a.code is not None or a.closed)
     code = a.code
     a.close()
@@ -171,8 +178,8 @@ def run_form(spec):
         if why:
             viol.append({"key": "C19/form/malformed", "msg": "allocate_code(%d) with server nameplate %r gave %r: %s" % (spec["n"], spec["np"], code, why),
                          "witness": {"spec": spec, "code": code}})
-    return {"violations": viol, "nontrivial": ["form", spec["n"], spec["np"], code], "counters": {"form_codes": int(code is not None)},
-            "sample": {"kind": "form", "n": spec["n"], "server_nameplate": spec["np"], "code": code}}
+    return {"violations": viol, "nontrivial": ["form", spec["n"], spec["np"], code], "counters": {"form_codes": int(code is not None), "form_when_" + when: 1},
+            "sample": {"kind": "form", "when": when, "n": spec["n"], "server_nameplate": spec["np"], "code": code}}
 
 
 def bad_codes(rng, n):
